@@ -137,8 +137,33 @@ func (x *Exec) constVal(c *ssa.Const) Value {
 func (x *Exec) globalPtr(s *State, g *ssa.Global) *PtrVal {
 	id, ok := x.globals[g]
 	if !ok {
-		id = 1<<60 + x.nextOb
-		x.nextOb++
+		// os.ErrNotExist, fs.ErrNotExist and internal/oserror.ErrNotExist (etc.) are one and the same
+		// error value in the real library: they share one object here too
+		alias := ""
+		if g.Pkg != nil {
+			switch g.Pkg.Pkg.Path() {
+			case "os", "io/fs", "internal/oserror":
+				switch g.Name() {
+				case "ErrNotExist", "ErrExist", "ErrPermission", "ErrClosed", "ErrInvalid":
+					alias = g.Name()
+				}
+			}
+		}
+		if alias != "" && !x.isInitPkg(g.Pkg) {
+			if aid, ok := x.errAlias[alias]; ok {
+				id = aid
+			} else {
+				id = 1<<60 + x.nextOb
+				x.nextOb++
+				if x.errAlias == nil {
+					x.errAlias = map[string]int{}
+				}
+				x.errAlias[alias] = id
+			}
+		} else {
+			id = 1<<60 + x.nextOb
+			x.nextOb++
+		}
 		x.globals[g] = id
 	}
 	if _, ok := s.Heap[id]; !ok {
